@@ -1280,9 +1280,17 @@ func (g *gen) pinnedPrograms() {
 	key := func(s string) *N {
 		return es(nd(tParen, nil, &N{Tag: tObj, Kids: []*N{{Tag: tProp, Vals: append([]int64{0}, unitsVals(s)...), Kids: []*N{one}}}}))
 	}
-	// 13: in for (var x = a < b in c) the relational operator's right operand must not take the `in`
-	g.pinCase(13, "for (var x = a < b in c) ;", &N{Tag: tProg, Kids: []*N{nd(tForIn, nil,
-		&N{Tag: tDecl, Vals: []int64{3}, Kids: []*N{nd(tBin, []int64{10}, id(0), id(1))}}, id(2), &N{Tag: tEmpty})}}, nil)
+	// 24f7b9d: the right operand of a relational operator inherits the no-in restriction (11.8 ...NoIn)
+	for oi, op := range []string{"<", ">", "<=", ">=", "instanceof"} {
+		o := []int64{int64([]int{10, 11, 12, 13, 14}[oi])}
+		g.regressCase("for (var x = a "+op+" b in c) ;", prog(nd(tForIn, nil, decl(3, nd(tBin, o, a, b)), c, &N{Tag: tEmpty})))
+		g.regressCase("for (var x = y ? a : a "+op+" b in c) ;", prog(nd(tForIn, nil, decl(3, nd(tCond, nil, id(4), a, nd(tBin, o, a, b))), c, &N{Tag: tEmpty})))
+		g.regressCase("for (var x = a "+op+" (b in c) in y) ;", prog(nd(tForIn, nil, decl(3, nd(tBin, o, a, in(b, c))), id(4), &N{Tag: tEmpty})))
+		g.regressCase("for (x = a "+op+" [b in c][0];;) ;", prog(nd(tFor, nil, asg(id(3), nd(tBin, o, a, nd(tIdx, nil, &N{Tag: tArr, Kids: []*N{in(b, c)}}, numLit("0")))), none, none, &N{Tag: tEmpty})))
+		g.rejectCase("for (x = a " + op + " b in c;;) ;")
+		g.rejectCase("for (var x = a " + op + " b in c;;) ;")
+	}
+	g.regressCase("for (x = a < b, y = a > b;;) ;", prog(nd(tFor, nil, nd(tBin, []int64{0}, asg(id(3), nd(tBin, []int64{10}, a, b)), asg(id(4), nd(tBin, []int64{11}, a, b))), none, none, &N{Tag: tEmpty})))
 	// 14: the flags of a regular expression literal are part of the token; an identifier on the next line is not
 	g.pinCase(14, "var r = /x/\ng = 1", &N{Tag: tProg, Kids: []*N{
 		nd(tVar, nil, &N{Tag: tDecl, Vals: []int64{lookupName("r")}, Kids: []*N{{Tag: tRegex, Vals: []int64{1, 'x'}}}}), es(asg(id(35), one))}}, nil)
